@@ -145,7 +145,7 @@ def num_attr(ex, v: Num, attr, node):
         n = None
         if v.shape is not None and len(v.shape) >= 1:
             n = v.shape[0] if attr == "index" else (v.shape[1] if len(v.shape) > 1 else NF.const(1))
-        r = Num(app(attr, v.nf), (n,) if n is not None else None, None, "index", meta={"kind": "LABEL", "of": v})
+        r = Num(app(attr, v.nf if v.nf is not None else (v.cond.key if v.cond is not None else "?")), (n,) if n is not None else None, None, "index", meta={"kind": "LABEL", "of": v})
         ex.register_atom(r.nf, r.shape)
         return r
     if attr in ("iloc", "loc", "at", "iat"):
